@@ -9,11 +9,17 @@ for a in "$@"; do [ "$a" = "--replay" ] && exec ./target/release/vcheck C15 "${A
 mkdir -p build replays/C15
 
 # (1) compile-time: every public type Send + Sync + 'static + Freeze. vlib built (./check did that) but autotraits does not => violation.
-( cd autotraits && flock /verif/build/.cargo-at.lock cargo +nightly build --offline ) > build/c15-autotraits.log 2>&1
-if [ $? -ne 0 ]; then
+# Three feature configurations of tz-rs ({}, {alloc}, {alloc,std}): the public types of each must be shareable.
+: > build/c15-autotraits.log
+at_rc=0
+for cfg in "" "--no-default-features --features alloc" "--no-default-features"; do
+  echo "== autotraits build: tz-rs features [${cfg:-default (std)}]" >> build/c15-autotraits.log
+  ( cd autotraits && flock /verif/build/.cargo-at.lock cargo +nightly build --offline $cfg ) >> build/c15-autotraits.log 2>&1 || { at_rc=1; break; }
+done
+if [ $at_rc -ne 0 ]; then
   if grep -qE "cannot be (sent|shared) between threads|Freeze|the trait bound" build/c15-autotraits.log; then
     cp build/c15-autotraits.log replays/C15/autotraits-build.log
-    echo "FAILURE property=C15 kind=autotraits : a public type is no longer Send + Sync + 'static + Freeze: $(grep -E '^error' build/c15-autotraits.log | head -2 | tr '\n' ' ' | cut -c1-300)"
+    echo "FAILURE property=C15 kind=autotraits : a public type is no longer Send + Sync + 'static + Freeze ($(grep '^== autotraits' build/c15-autotraits.log | tail -1)): $(grep -E '^error' build/c15-autotraits.log | head -2 | tr '\n' ' ' | cut -c1-300)"
     echo "VIOLATION property=C15 replay=/verif/replays/C15/autotraits-build.log"
     exit 1
   fi
